@@ -6,12 +6,16 @@ namespace TxHS
 
 /-! ### outputs -/
 
+/-- the state change of `apply_output` + `save_output_pos_height` -/
+def pushLeaf (S : TxHS) (c h : Nat) : TxHS :=
+  ({ S with leaves := S.leaves ++ [c], leafSet := S.leafSet ++ [S.leaves.length] } : TxHS).saveOutputPos
+    c ⟨S.leaves.length, h⟩
+
 /-- under the invariant the duplicate check of `apply_output` fires exactly when the commitment
 has an index entry -/
 theorem applyOutput_ok {S S' : TxHS} (hi : RInv S) (c h : Nat) (hr : S.applyOutput c h = .ok S') :
     S.getOutputPos c = none ∧
-    S' = ({ S with leaves := S.leaves ++ [c], leafSet := S.leafSet ++ [S.leaves.length] } : TxHS).saveOutputPos
-      c ⟨S.leaves.length, h⟩ := by
+    S' = S.pushLeaf c h := by
   unfold applyOutput at hr
   cases hg : S.getOutputPos c with
   | none =>
@@ -24,15 +28,14 @@ theorem applyOutput_ok {S S' : TxHS} (hi : RInv S) (c h : Nat) (hr : S.applyOutp
     simp [hg, this] at hr
 
 theorem applyOutput_of_none (S : TxHS) (c h : Nat) (hn : S.getOutputPos c = none) :
-    S.applyOutput c h = .ok (({ S with leaves := S.leaves ++ [c],
-      leafSet := S.leafSet ++ [S.leaves.length] } : TxHS).saveOutputPos c ⟨S.leaves.length, h⟩) := by
-  unfold applyOutput
+    S.applyOutput c h = .ok (S.pushLeaf c h) := by
+  unfold applyOutput pushLeaf
   simp [hn]
 
 /-- appending a fresh commitment keeps the invariant -/
 theorem applyOutput_rinv {S : TxHS} (hi : RInv S) (c h : Nat) (hn : S.getOutputPos c = none) :
-    RInv (({ S with leaves := S.leaves ++ [c], leafSet := S.leafSet ++ [S.leaves.length] } : TxHS).saveOutputPos
-      c ⟨S.leaves.length, h⟩) := by
+    RInv (S.pushLeaf c h) := by
+  unfold pushLeaf
   refine ⟨?_, ?_, ?_⟩
   · intro i hi'
     simp only [saveOutputPos_leafSet, List.mem_append, List.mem_singleton] at hi'
@@ -92,8 +95,14 @@ theorem applyOutputs_ok (os : List (Nat × Bool)) (h : Nat) : ∀ {S S1 : TxHS},
     simp only [applyOutputs] at hr
     injection hr with hr
     subst hr
-    exact ⟨hi, by simp, by simp, fun _ _ => rfl, fun c hc => by cases hc, fun c hc => by cases hc,
+    refine ⟨hi, by simp, ?_, fun _ _ => rfl, fun c hc => (by cases hc), fun c hc => (by cases hc),
       List.nodup_nil, rfl⟩
+    intro i
+    constructor
+    · exact Or.inl
+    · rintro (h1 | h1)
+      · exact h1
+      · simp at h1; omega
   | cons o os ih =>
     intro S S1 hi hr
     simp only [applyOutputs] at hr
@@ -107,7 +116,7 @@ theorem applyOutputs_ok (os : List (Nat × Bool)) (h : Nat) : ∀ {S S1 : TxHS},
       have hl' : S'.leaves = S.leaves ++ [o.1] := by rw [hS']; rfl
       have hls' : S'.leafSet = S.leafSet ++ [S.leaves.length] := by rw [hS']; rfl
       have hg' : ∀ c, S'.getOutputPos c = if c = o.1 then some ⟨S.leaves.length, h⟩ else S.getOutputPos c := by
-        intro c; rw [hS', getOutputPos_save]; rfl
+        intro c; rw [hS']; unfold pushLeaf; rw [getOutputPos_save]; rfl
       have hnot : o.1 ∉ os.map (·.1) := by
         intro hm
         have := A.fresh o.1 hm
@@ -118,8 +127,17 @@ theorem applyOutputs_ok (os : List (Nat × Bool)) (h : Nat) : ∀ {S S1 : TxHS},
       · intro i
         rw [A.leafSet i, hls', hl']
         simp only [List.mem_append, List.mem_singleton, List.length_append, List.length_singleton,
-          List.length_map, List.map_cons, List.length_cons]
-        omega
+          List.length_map, List.map_cons, List.length_cons, List.length_nil]
+        constructor
+        · rintro ((h1 | h1) | h1)
+          · exact Or.inl h1
+          · right; omega
+          · right; omega
+        · rintro (h1 | h1)
+          · exact Or.inl (Or.inl h1)
+          · by_cases he : i = S.leaves.length
+            · exact Or.inl (Or.inr he)
+            · right; omega
       · intro c hc
         simp only [List.map_cons, List.mem_cons, not_or] at hc
         rw [A.other c hc.2, hg' c, if_neg hc.1]
